@@ -9,6 +9,8 @@ package main
 // and serves exactly the checkpointed contents.
 
 import (
+	rawbadger "github.com/dgraph-io/badger/v4"
+
 	"github.com/oasisprotocol/oasis-core/go/common/crypto/hash"
 
 	"verifharness/internal/coqout"
@@ -405,6 +407,19 @@ func runRestoreCase(self string, c Case) result {
 		return res
 	}
 	res.notes[fmt.Sprintf("chunks:%d", len(meta.Chunks))]++
+	// node keys that exist before the restore starts (after the optional finalized version 1)
+	preKeys := 0
+	{
+		pdir, _ := os.MkdirTemp("", "verif-crash-pre")
+		if pdb, perr := openDB(c.Backend, pdir); perr == nil {
+			if r.Pre {
+				_ = preHistory(pdb)
+			}
+			pdb.Close()
+			preKeys, _ = countNodeKeys(pdir)
+		}
+		os.RemoveAll(pdir)
+	}
 	var twin *twinInfo
 	if c.Backend == "badger" {
 		if twin, err = badgerTwin(c, cpDir); err != nil {
@@ -450,7 +465,7 @@ func runRestoreCase(self string, c Case) result {
 				res.viol = append(res.viol, where+": database does not reopen: "+err.Error())
 				return
 			}
-			defer ndb.Close()
+			defer func() { ndb.Close() }()
 			last, has := ndb.GetLatestVersion()
 			if k := restoreStepsAt(r.Last, p); twin != nil && k >= 0 {
 				lastS := "None"
@@ -497,6 +512,63 @@ func runRestoreCase(self string, c Case) result {
 					res.notes["restore:unfinalized-root-still-listed-after-reopen"]++
 				}
 				res.notes["restore:not-visible"]++
+				// pathbadger never writes its restore log (multipartRestoreNodeLogKeyFmt is only read, in
+				// cleanMultipartLocked), so its cleanup removes nothing: reported under one key
+				leftover := func(what string) {
+					if c.Backend == "pathbadger" {
+						res.keyed = append(res.keyed, [2]string{"C07:pathbadger-aborted-restore-is-not-cleaned-up", what})
+					} else {
+						res.viol = append(res.viol, what)
+					}
+				}
+				// (a) the partially restored checkpoint must not be served
+				if st := readRestored(ndb, meta.Root, r.NKeys); st == "exact" && ndb.HasRoot(meta.Root) {
+					leftover(where + ": the not finalized (partially restored) checkpoint root is still listed and completely readable after reopen")
+				}
+				// (b) reopen must leave exactly the node keys that existed before the restore
+				ndb.Close()
+				got, cerr := countNodeKeys(dir)
+				if cerr != nil {
+					res.viol = append(res.viol, where+": raw key scan failed: "+cerr.Error())
+				} else if got != preKeys {
+					leftover(fmt.Sprintf("%s: %d node keys are visible after reopen, %d existed before the restore (garbage left behind)", where, got, preKeys))
+				}
+				if ndb, err = openDB(c.Backend, dir); err != nil {
+					res.viol = append(res.viol, where+": database does not reopen a second time: "+err.Error())
+					return
+				}
+				// (c) a second restore followed by Abort returns to the pre-restore state
+				if fc, m2, lerr := loadCheckpoint(cpDir); lerr == nil {
+					aerr := ndb.StartMultipartInsert(restoreVersion)
+					if aerr == nil {
+						rs, _ := checkpoint.NewRestorer(ndb)
+						_ = rs.StartRestore(context.Background(), m2)
+						aerr = restoreChunks(ndb, fc, m2, rs, 0, len(m2.Chunks))
+						_ = rs.AbortRestore(context.Background())
+					}
+					if aerr == nil {
+						aerr = ndb.AbortMultipartInsert()
+					}
+					if aerr != nil {
+						res.viol = append(res.viol, where+": second restore + abort fails: "+aerr.Error())
+						return
+					}
+					if l2, h2 := ndb.GetLatestVersion(); h2 != has || (h2 && l2 != last) {
+						res.viol = append(res.viol, where+": second restore + abort changed the latest version")
+					}
+					if st := readRestored(ndb, meta.Root, r.NKeys); st == "exact" && ndb.HasRoot(meta.Root) {
+						leftover(where + ": aborted restore is still listed and completely readable")
+					}
+					ndb.Close()
+					got, cerr = countNodeKeys(dir)
+					if cerr == nil && got != preKeys {
+						leftover(fmt.Sprintf("%s: %d node keys are visible after a second restore + abort, %d existed before the restore", where, got, preKeys))
+					}
+					if ndb, err = openDB(c.Backend, dir); err != nil {
+						res.viol = append(res.viol, where+": database does not reopen after abort: "+err.Error())
+						return
+					}
+				}
 			}
 			if r.Pre {
 				if st := readRoot(ndb, preRoot); st != "exact" {
@@ -529,4 +601,35 @@ func runRestoreCase(self string, c Case) result {
 		}()
 	}
 	return res
+}
+
+// countNodeKeys scans the raw Badger store (database closed) and counts the node keys that are
+// visible at the newest timestamp: badger backend prefix 0x00 (nodes by hash); pathbadger 0x04
+// (finalized nodes) and 0x05 (pending nodes).
+func countNodeKeys(dir string) (int, error) {
+	raw, err := rawbadger.OpenManaged(rawbadger.DefaultOptions(dir).WithLogger(nil))
+	if err != nil {
+		return 0, err
+	}
+	defer raw.Close()
+	backendIsPath := false
+	tx := raw.NewTransactionAt(^uint64(0), false)
+	defer tx.Discard()
+	// pathbadger stores its metadata under 0x00 (one key), badger under 0x04 (one key)
+	if _, err := tx.Get([]byte{0x04}); err != nil {
+		backendIsPath = true
+	}
+	prefixes := [][]byte{{0x00}}
+	if backendIsPath {
+		prefixes = [][]byte{{0x04}, {0x05}}
+	}
+	n := 0
+	for _, pf := range prefixes {
+		it := tx.NewIterator(rawbadger.IteratorOptions{Prefix: pf})
+		for it.Rewind(); it.Valid(); it.Next() {
+			n++
+		}
+		it.Close()
+	}
+	return n, nil
 }
